@@ -620,7 +620,7 @@ pub fn err_program(r: &mut Rng) -> String {
     r.shuffle(&mut cs);
     let (c1, c2, c3, c4) = (cs[0], cs[1], cs[2], cs[3]);
     let n = r.range(2, 9);
-    match r.below(30) {
+    match r.below(34) {
         0 => format!("from {t} | select {{{c1}, {c2}, {c3}}} | derive {{{c4} = {c1}}} | filter zz_{n} > 1\n"),
         1 => format!("from a = {t} | join b = {u} (=={c1}) | join c = {t} (=={c1}) | select {{{c1}, {c2}}}\n"),
         2 => format!("from {t} | sort {c1} foo:{n} bar:2 baz:3\n"),
@@ -652,7 +652,12 @@ pub fn err_program(r: &mut Rng) -> String {
         // a table / a module where a type is expected: the message prints the declaration
         27 => format!("let tt = (from {t} | select !{{{c1}, {c2}, {c3}}})\nlet v <tt> = {n}\nfrom {t}\n"),
         28 => format!("module m {{\n  let f = x -> (window rows:1..2 expanding:false range:1..3 x)\n  let b = (from {t} | select !{{{c1}, {c2}, {c3}, {c4}}})\n}}\ntype y = m\nfrom {t}\n"),
-        _ => format!("let tt = (from {t} | select !{{{c1}, {c2}}} | join {u} (=={c3}))\nlet f = func p <tt> -> p\nfrom {t}\nderive q = (f {n})\n"),
+        29 => format!("let tt = (from {t} | select !{{{c1}, {c2}}} | join {u} (=={c3}))\nlet f = func p <tt> -> p\nfrom {t}\nderive q = (f {n})\n"),
+        // malformed interpolated strings
+        30 => format!("from {t} | derive {{x = s\"COALESCE({{{c1}}}, {{{c2}\", y = {c3}}}\n"),
+        31 => format!("from {t} | derive {{x = f\"{{{c1}}}-{{}}-{{{c2}}}\"}} | select {{x, {c3}}}\n"),
+        32 => format!("from {t} | filter s\"{{{c1}}} > {{ {n}\" | take {n}\n"),
+        _ => format!("from s\"SELECT * FROM {t} WHERE {{}} = {{{c1}\" | select {{{c2}}}\n"),
     }
 }
 
@@ -814,6 +819,8 @@ const DIALECT_SENSITIVE: &[&str] = &[
     "from t | select {r = (a / b | math.round 2), c = (s | text.contains 'x'), d = a // b}",
     "from events | select {`time`, `tag`, `percent`, `user`, `top`, `snapshot`} | filter `system` > 1 | sort {`timestamp`}",
     "from employees | derive {salary * 2} | take 10 | filter (name ~= \"x\")",
+    "from t | derive {x = s\"COALESCE({a}, {b\", y = c} | take 3",
+    "from t | select {f = f\"{a}-{}-{b}\", g = s\"LOWER({c})\"} | sort f",
     "from t | derive {a + 1, s\"NOW()\"} | take 5 | derive {d = (b | date.to_text \"%Q\")} | filter a > 1",
     "from t | select {s = s\"CONCAT({a}, {b})\", f = f\"{a}-{b}\"} | filter (s ~= \"x\") | take 3",
     "from t | derive {`identity` = a, `offset` = b} | select {`identity`, `offset`, `date`, `window`}",
@@ -852,10 +859,23 @@ impl<'a> Gen<'a> {
                 src,
                 opts: pick_opts(r, dialect_sensitive),
             },
-            12 => Op::StagedJson {
+            12 if r.below(2) == 0 => Op::StagedJson {
                 src,
                 opts: pick_opts(r, dialect_sensitive),
             },
+            12 => {
+                let between = match r.below(3) {
+                    0 => "from x".to_string(),
+                    1 => format!("from {} | take 1", r.pick(TABLES)),
+                    _ => self.program(r),
+                };
+                Op::StagedSplit {
+                    src,
+                    between,
+                    via_json: r.below(2) == 0,
+                    opts: pick_opts(r, dialect_sensitive),
+                }
+            }
             13..=15 => Op::Fmt { src },
             16..=17 => Op::Rq { src },
             _ => Op::Tokens { src },
@@ -984,6 +1004,7 @@ impl<'a> Gen<'a> {
             sentinel: vec![],
             keep_log: false,
             heap_perturb: 0,
+            alloc_yield_mean: 0,
         }
     }
 
@@ -1063,6 +1084,7 @@ impl<'a> Gen<'a> {
             sentinel: self.sentinel(r),
             keep_log: false,
             heap_perturb: 0,
+            alloc_yield_mean: 0,
         }
     }
 
@@ -1146,6 +1168,7 @@ impl<'a> Gen<'a> {
             sentinel,
             keep_log: false,
             heap_perturb,
+            alloc_yield_mean: 0,
         }
     }
 
@@ -1223,6 +1246,8 @@ impl<'a> Gen<'a> {
             sentinel,
             keep_log: false,
             heap_perturb: *r.pick(&[0u32, 0, 0, 7, 40, 300]),
+            // allocation-point preemption (threads engine): off, coarse, fine
+            alloc_yield_mean: *r.pick(&[0u32, 0, 0, 30_000, 4_000, 500]),
         }
     }
 }
